@@ -96,6 +96,11 @@ def make_script(rng, bursts):
             fn = (fn + 1) % W.H
         if rng.chance(1, 12):
             ops.append(("ctrl", rng.below(2), W.rejected_cmd(rng)))      # refused / ignored: the simulation parameters stay as they are
+        if rng.chance(1, 25):
+            # a power cycle of one side: the negotiated header version and every simulation parameter survive it (POWEROFF forgets the
+            # queue and the hopping configuration, nothing else)
+            k = rng.below(2)
+            ops += [("ctrl", k, W.cmd("CMD POWEROFF")), ("ctrl", k, W.cmd("CMD POWERON")), ("state",)]
     ops.append(("state",))
     return [], ops
 
